@@ -437,7 +437,12 @@ def trso_line9(query: TRSOQuery, district: set[Variable]) -> Expression:
         #  that triggers this line, then it can be safely removed
         raise RuntimeError
 
-    ordering = list(query.graphs[query.domain].topological_sort())
+    # selection (transport) nodes are not variables of any distribution: keep them out of the sums
+    ordering = [
+        node
+        for node in query.graphs[query.domain].topological_sort()
+        if not is_transport_node(node)
+    ]
     ordering_set = set(ordering)
     my_product: Expression = One()
     for node in district:
@@ -469,7 +474,11 @@ def trso_line10(
     :param new_surrogate_interventions: Dict mapping domains to interventions performed in that domain.
     :returns: A modified TRSOQuery
     """
-    ordering = list(query.graphs[query.domain].topological_sort())
+    ordering = [
+        node
+        for node in query.graphs[query.domain].topological_sort()
+        if not is_transport_node(node)
+    ]
     expressions = []
     for node in district:
         i = ordering.index(node)
